@@ -247,7 +247,21 @@ def g2_worklist(F, R):
             if skips and ((has_contains and not negated) or neg_insert):
                 tested = True
         first_push = min([top_index(p) for p in w["pushes"]] or [len(stmts)])
-        if tested and mi <= first_push:
+        # between the test and the mark no path may end the iteration: a node that leaves there stays unmarked and is
+        # processed again every time another path reaches it
+        ti = next((i for i, st in enumerate(stmts[:mi + 1]) if any(m.get("k") == "MethodCall" and m["name"] == "contains" and ekey(m["recv"]).lstrip("&*") == V for m in walk(st, pats=False))), None)
+        early = []
+        if tested and ti is not None:
+            for st in stmts[ti + 1:mi]:
+                inner_loops = {id(y) for lp_ in walk(st, pats=False) if lp_.get("k") == "Loop" for y in walk(lp_["body"], pats=False)}
+                for y in walk(st, pats=False):
+                    if y.get("k") in ("Continue", "Ret") and not (y.get("exp") or "").startswith("desugar") and (id(y) not in inner_loops or y.get("label")):
+                        early.append(y)
+                    if y.get("k") == "Break" and id(y) not in inner_loops and not (y.get("exp") or "").startswith("desugar"):
+                        early.append(y)
+        if tested and early:
+            R.bad(key, f"{key}: an iteration can end (`{early[0]['k'].lower()}`) after the visited test and before `{V}.insert({X})`: a node that ends there - the one the search was looking for - is never marked and is processed again whenever another path reaches it, so what it reports is reported once per path", loc(early[0]))
+        elif tested and mi <= first_push:
             R.ok(key, detail=f"{key}: `if {V}.contains(&{X}) {{ continue }}` then `{V}.insert({X})` before anything is queued", where=loc(marks[0]))
         elif not tested:
             R.bad(key, f"{key}: `{X}` is marked in `{V}` when it is popped, but nothing tests `{V}` at that point (a filter where nodes are queued does not help: a node is queued once per already-popped successor until its own first visit): the same node is processed twice, its predecessors are queued twice, and whether that happens depends on the iteration order of a HashSet", loc(marks[0]))
